@@ -63,6 +63,8 @@ def run(ctx):
     ctx.do(rule_no_hidden_state, "C12.history-independence")
     from .pitfalls import rule_loops_not_cut_short
     ctx.do(rule_loops_not_cut_short, "C12.loops-complete")
+    from .pitfalls import rule_definite_assignment
+    ctx.do(rule_definite_assignment, "C12.definite-assignment")
 
 
 def _op_chain(fi):
